@@ -448,7 +448,16 @@ Init == l = 1 /\ bad = {} /\ rid = "none"
 TrRun ==
   /\ l <= Len(Rec) /\ Rec[l].ev = "run"
   /\ bad' = Check(Rec[l]) /\ rid' = Rec[l].id /\ l' = l + 1
-TrNext == TrRun
+\* C12, "for any program": a crate whose items are legal Rust (it compiles with the divan
+\* attributes removed) must also compile with them, and then list exactly the written
+\* benchmarks (display paths; `written` and `listed` are sorted sequences of code-point strings)
+CheckCompile(r) ==
+  Flag(r.legal /\ ~r.compiled, "C12:program_of_legal_items_does_not_compile_with_the_attributes")
+  \cup Flag(r.legal /\ r.compiled /\ r.listed # r.written, "C12:listed_benchmarks_differ_from_the_written_ones")
+TrCompile ==
+  /\ l <= Len(Rec) /\ Rec[l].ev = "compile"
+  /\ bad' = CheckCompile(Rec[l]) /\ rid' = Rec[l].id /\ l' = l + 1
+TrNext == TrRun \/ TrCompile
 TrSpec == Init /\ [][TrNext]_vars
 
 Prefixed(px) == {b \in bad : SubSeq(b, 1, 4) = px}
